@@ -5,12 +5,12 @@ VARIABLE l
 Trace == ndJsonDeserialize(IOEnv.TRACEFILE)
 Ev == Trace[l]
 tvars == <<lvars, l>>
-TStart   == Ev.op = "start" /\ Start([main |-> Ev.main, personal |-> Ev.personal, maxatt |-> Ev.maxatt, cap |-> Ev.cap])
+TStart   == Ev.op = "start" /\ Start([main |-> Ev.main, personal |-> Ev.personal, maxatt |-> Ev.maxatt, cap |-> Ev.cap, heal |-> Ev.heal])
 TAttempt == Ev.op = "attempt" /\ Attempt /\ att' = Ev.n
 TDelay   == Ev.op = "delay" /\ Retry(Ev.d)
 \* the classification step is not logged: GiveUp is composed into the return
 TRet     == Ev.op = "ret" /\ Ev.searchok /\ ReturnFrom(IF pc = "failed" THEN "fallback" ELSE pc, Ev.kind, Ev.err)
-TraceInit == l = 1 /\ cfg = [main |-> "ok", personal |-> "ok", maxatt |-> 1, cap |-> 0] /\ pc = "init" /\ att = 0 /\ delays = <<>> /\ res = NoRes
+TraceInit == l = 1 /\ cfg = [main |-> "ok", personal |-> "ok", maxatt |-> 1, cap |-> 0, heal |-> 0] /\ pc = "init" /\ att = 0 /\ delays = <<>> /\ res = NoRes
 TraceNext == l <= Len(Trace) /\ l' = l + 1 /\ (TStart \/ TAttempt \/ TDelay \/ TRet)
 TraceSpec == TraceInit /\ [][TraceNext]_tvars
 TraceAccepted ==
